@@ -82,7 +82,9 @@ var (
 	c15ASMOk = []string{"ok", "ok", "ok", "iss-slash", "ok-loopback-ep"}
 	// opaque forms, and authority forms whose host is a loopback address (a loopback host does not make a script URL safe)
 	c15Schemes = []string{"javascript:alert(1)//", "data:text/html,x//", "vbscript:msgbox//", "JavaScript:alert(1)//", "DATA:text/html,",
-		"javascript://127.0.0.1/%0Aalert(1)//", "data://[::1]/text/html,x//", "vbscript://localhost/msgbox//"}
+		"javascript://127.0.0.1/%0Aalert(1)//", "data://[::1]/text/html,x//", "vbscript://localhost/msgbox//",
+		// forms a browser still runs: it strips leading blanks and control characters, and tabs and line ends anywhere
+		" javascript:alert(1)//", "\tjavascript:alert(1)//", "java\tscript:alert(1)//", "\x01javascript:alert(1)//", " data:text/html,x//", "jav\nascript:alert(1)//"}
 	c15Marker = regexp.MustCompile(`q[pad][0-9]+q`)
 )
 
@@ -166,7 +168,7 @@ func genC15(r *vh.Rand, idx int) c15Spec {
 			}
 		case 8:
 			if r.Chance(1, 2) {
-				s.DCR = r.Choose("400", "500", "noid", "redirect-js", "neterr", "logo-data", "badjson", "redirect-js-200", "logo-data-200", "client-uri-vbscript", "tos-js-200", "policy-data", "jwks-js-200")
+				s.DCR = r.Choose("400", "500", "noid", "redirect-js", "neterr", "logo-data", "badjson", "redirect-js-200", "logo-data-200", "client-uri-vbscript", "tos-js-200", "policy-data", "jwks-js-200", "logo-blank-js-200", "client-uri-tab-js")
 				if !strings.Contains(s.Reg, "dcr") && s.Reg != "all" {
 					s.Reg = "dcr"
 				}
@@ -702,6 +704,11 @@ func (w *c15World) serveDCR(req *http.Request, body string) (*http.Response, str
 	case "jwks-js-200":
 		status = 200
 		doc["jwks_uri"] = "javascript:alert(1)//" + m
+	case "logo-blank-js-200":
+		status = 200
+		doc["logo_uri"] = " javascript:alert(1)//" + m
+	case "client-uri-tab-js":
+		doc["client_uri"] = "java\tscript:alert(1)//" + m
 	}
 	return jsonResp(req, status, "application/json", vh.JSON(doc)), ""
 }
